@@ -315,6 +315,9 @@ def check_render(case):
                         raise Violation(f"label.{tag}.omitted-although-different-from-parent", observed="", expected=fams, extra={"node": gname})
                     continue
                 got = parse_synteny_label(text, width)
+                if kind == "unordered" and case.get("_syn_sets"):
+                    # a synteny handed over as a set has no order: the label lists exactly its families, in any order
+                    got, fams = sorted(got), sorted(fams)
                 if got != fams:
                     raise Violation(f"label.{tag}.synteny", observed=got, expected=fams, extra={"node": gname, "label": text})
                 if "\\\\" in text:
